@@ -45,6 +45,11 @@ def jobs(tier, seed):
                 a, b = rng.choice(by_minor[m1]), rng.choice(by_minor[m2])
                 if a != b:
                     pairs.append([a, b])
+    # distinct currencies that share their name (SLL / SLE, VES / VED): always included
+    for a in codes:
+        for b in codes:
+            if a != b and table[a][0] == table[b][0]:
+                pairs.append([a, b])
     allpairs = [[a, b] for a in codes for b in codes if a != b]
     if tier == 'quick':
         pairs += C.sample(rng, allpairs, 300 - len(pairs))
